@@ -35,6 +35,14 @@ STRENGTH = {
     "C16-m5": "missed at first; caught after 24 goroutines encoding different PUBLISH packets into a writer that yields before it copies",
     "C19-m5": "missed at first; caught after 8 goroutines creating 20000 ids each",
     "C19-m6": "missed at first; caught after messages encoded right after frames (shared encoder pool)",
+    "C10-m5": "missed at first; caught by C16 after refused oversize packets between the concurrent encoders",
+    "C10-m6": "missed at first; caught after packets of 8192-20000 bytes in the write-queue scripts",
+    "C15-m5": "missed at first; caught after a second store is opened on the directory while the storing child is alive",
+    "C15-m6": "missed at first; caught after messages of exactly the largest returnable size (65536 bytes and up to 8 less)",
+    "C17-m5": "missed at first; caught after driving the whole multiplexing listener (hook VerifNewListener over a scripted root listener) with a read timeout and an acceptor that reads at once",
+    "C17-m6": "missed at first; caught after WebSocket writes of 16384-65536 bytes",
+    "C18-m5": "missed at first; caught after a connection that ends while it holds both filters of a colliding pair",
+    "C18-m6": "missed at first; caught after the overlapping-filters scenario (a/ and a/b/, a/+/ and a/b/ on one connection, watchers on both)",
     "C01-m6": "missed at first; caught after share groups of 129-300 members that are looked up, dissolved and followed by lookups of lone members",
     "C03-m5": "missed at first; caught after keys expiring at the edges of the 32-bit expiry field (2010, 2106-2146, clamped dates)",
     "C03-m6": "not seen by C03 / C14 (the alternate spelling decrypts to the same key); caught by C20 (the decoder must reject characters outside its alphabet)",
